@@ -176,8 +176,12 @@ JNumber(o) ==
               ELSE IF ~IsTrue(o.rteq) THEN "canon-reparse-eq"
               ELSE "none"
       bad == IF step = "lit" THEN o.lit ELSE IF step = "canon-reparse" THEN o.rt ELSE o.rteq
+      unitClass == IF cs.sub # "quantity" THEN ""
+                   ELSE IF p.v.unit \in Keywords THEN "|unit-keyword"
+                   ELSE IF \A j \in 1..Len(p.v.unit) : (p.v.unit[j] >= 65 /\ p.v.unit[j] <= 90) \/ (p.v.unit[j] >= 97 /\ p.v.unit[j] <= 122) THEN "|unit-letters"
+                   ELSE "|unit-other"
       sig == IF AnyFailure(outs) THEN "lit-decimal|" \o cs.sub \o "|" \o FailKind(outs)
-             ELSE "lit-decimal|" \o cs.sub \o "|" \o step \o "|got-" \o KindOf(bad)
+             ELSE "lit-decimal|" \o cs.sub \o "|" \o step \o unitClass \o "|got-" \o KindOf(bad)
       good == ~AnyFailure(outs) /\ step = "none"
   IN [ok |-> good, sig |-> IF good THEN "" ELSE sig,
       want |-> IF p.ok THEN Ok(<<p.v>>) ELSE [k |-> "any"]]
